@@ -128,6 +128,28 @@ pub fn same_pos_probes(w: &World, cx: &mut Ctx) -> R {
             }
         }
     }
+    // 3b. a right moved to another own rook on the same wing (two rooks on one side of the king)
+    'moved: for c in 0..2u8 {
+        let Some(k) = m.king_sq(c) else { continue };
+        let back = if c == WHITE { 0 } else { 7 };
+        for wing in 0..2usize {
+            let Some(cur) = m.rights[c as usize][wing] else { continue };
+            for f in 0..8u8 {
+                let same_wing = if wing == 0 { (f as i8) > file_of(k) } else { (f as i8) < file_of(k) };
+                if f != cur && same_wing && m.sq[mk(f as i8, back).unwrap() as usize] == Some((ROOK, c)) {
+                    let mut r = m.clone();
+                    r.rights[c as usize][wing] = Some(f);
+                    if r.unsound().is_none() {
+                        if let Some(br) = parse_model(&r) {
+                            cx.hit("probe_same_position_right_on_other_rook");
+                            check_pair(live, m, &br, &r, "rights-other-rook", cx)?;
+                            break 'moved;
+                        }
+                    }
+                }
+            }
+        }
+    }
     // 4. one piece removed or changed (kept sound)
     let mut done = 0;
     for s in 0..64usize {
